@@ -521,3 +521,8 @@ LEVEL_NOTE = ('Trusted: Coq kernel/vm_compute, extraction+driver (sample cross-c
               '(55f6ce1); the pre-repair model is kept and refuted by c18_lost_refuted_before_repair.')
 TECHNIQUE = 'Coq invariant proofs over a small-step interleaving model + differential correspondence of step traces with the implementation'
 DESIGN_REF = 'DESIGN.md section 5, C18'
+
+EXHAUSTIVE = {'quick': True, 'thorough': True}
+EXHAUSTIVE_SPACE = ('quick: every schedule (arrival decisions at every atomic step, both callback answers) of every well-nested main flow with <= 3 operations and '
+                    '<= 2 arrivals of 2 signal numbers is enumerated; thorough: <= 5 ops/3 arrivals and <= 3 ops/4 arrivals, 3 signal numbers, plus random long schedules. '
+                    'The unbounded claim is carried by the theorems, not by this enumeration.')
